@@ -29,7 +29,7 @@ if prev:
     avoid = "\nOther engineers have already produced these changes for this property; yours must be clearly different (other functions, other mechanisms, other triggers):\n" + "\n".join(prev) + "\n"
 print(f"""You are a software engineer helping to evaluate a verification tool by seeding realistic bugs.
 
-You work ONLY inside the scratch git worktree {wt} (a checkout of the ImageD11 repository: a Python/C toolkit for 3DXRD data) and write your results to {out}. Never read or write /repo or /verif, and do not commit anything.
+You work ONLY inside the scratch git worktree {wt} (a checkout of the ImageD11 repository: a Python/C toolkit for 3DXRD data) and write your results to {out}. Never read or write /repo or /verif, do not commit anything, and do not use `git stash` (the stash is shared by all worktrees of the repository).
 
 Environment (no network):
 - Python is /venv/bin/python. The package is installed from another directory, so ALWAYS run with `PYTHONPATH={wt}` so that the worktree shadows it, and check once with `PYTHONPATH={wt} /venv/bin/python -c "import ImageD11; print(ImageD11.__file__)"`.
